@@ -349,6 +349,25 @@ def execute(scn, world: World, plans: dict, res: Result, *, auto_heal: bool, rec
                         res.violate("C18.raised", step, op=do, fired=[], got=type(out[1]).__name__ if failed else "no exception",
                                     what="true_cycle: " + (type(out[1]).__name__ if failed else "no exception"))
 
+            tc = world.spec.get("two_cycle")
+            if tc and not fired and not caught and do[0] == "calculate" and do[1] == tc[0] and scn["knobs"].get("max_spiral_loops", 1) >= 2:
+                # the circle over two periods: month m + 1 needs month m, which needs month
+                # m + 1 again - refused as circular once the budget allows the second lap
+                p_req = periods.period(do[2])
+                year, month = p_req.start.year, p_req.start.month
+                held = {(tc[0], f"{year:04d}-{mm:02d}") for mm in (tc[2], tc[2] + 1)} & set(before)
+                try:
+                    names = {world.tbs.get_variable(tc[0]).get_formula(periods.period(f"{year:04d}-{mm:02d}")).__name__ for mm in (tc[2], tc[2] + 1)}
+                except Exception:  # noqa: BLE001
+                    names = set()
+                expected_name = "formula" if tc[1] == "0001-01-01" else "formula_" + tc[1].replace("-", "_")
+                if month == tc[2] + 1 and not held and names == {expected_name} and not world.var_specs[tc[0]].get("end"):
+                    res.count("clause:C18.raised")
+                    res.count("probe:circle_over_two_periods_requested")
+                    if not (failed and isinstance(out[1], of_errors.CycleError)):
+                        res.violate("C18.raised", step, op=do, fired=[], got=type(out[1]).__name__ if failed else "no exception",
+                                    what="two_period_cycle: " + (type(out[1]).__name__ if failed else "no exception"))
+
             # C18.raised --------------------------------------------------------
             if fired:
                 res.count("clause:C18.raised")
